@@ -137,6 +137,7 @@ class Facts:
         import linecache as _lc
 
         sig["mgr_blocked_on_management_lock"] = False
+        sig["user_blocked_on_management_lock"] = None
         for frames in threads:
             role, inner = classify_thread(frames)
             roles.setdefault(role, []).append(inner)
@@ -144,6 +145,11 @@ class Facts:
                 if "processes_management_lock" in _lc.getline(frames[1][0], frames[1][1]):
                     sig["mgr_blocked_on_management_lock"] = True
                     sig["broken_path"] = any(fr[2] == "terminate_broken" for fr in frames)
+            if role == "user" and len(frames) >= 2 and frames[0][0].endswith("loky/backend/synchronize.py") and frames[0][2] in ("__enter__", "acquire"):
+                if "processes_management_lock" in _lc.getline(frames[1][0], frames[1][1]):
+                    # a client thread waits for the cross-process management lock (which only a worker in its time-out branch,
+                    # a spawning submit or a resize can hold)
+                    sig["user_blocked_on_management_lock"] = frames[1][2]
         sig["mgr_in"] = roles.get("mgr", [None])[0]
         sig["feeder_in"] = roles.get("feeder", [None])[0]
         users = [u for u in roles.get("user", []) if u]
@@ -173,6 +179,14 @@ class Facts:
                             blocked += 1
                             break
         sig["worker_blocked_on_result_wlock"] = blocked > 0
+        # a live worker waiting for the call queue's read lock (multiprocessing.queues.Queue.get: `self._rlock.acquire(...)`)
+        rl = 0
+        for wpid in self.workers():
+            wt = stacks.get("stacks.%s.txt" % wpid)
+            for frames in parse_faulthandler(wt or ""):
+                if frames and frames[0][0].endswith("multiprocessing/queues.py") and frames[0][2] == "get" and "_rlock" in linecache.getline(frames[0][0], frames[0][1]):
+                    rl += 1
+        sig["worker_waiting_for_call_rlock"] = rl > 0
         live = 0
         for pr in st.get("procs", []):
             cmd = pr.get("cmdline") or ""
